@@ -11,12 +11,13 @@ CN = [1, 2, 3, 5, 8]
 def ensure_containers():
     key = sha(HEADER, VERIF + "/harness/containers.cpp")
     d = f"{CACHE}/cont-{key}"
-    if os.path.exists(d + "/ok"): return d, None
-    os.makedirs(d, exist_ok=True)
-    rc, out, _ = sh(f"g++ -std=c++17 -O1 -I{REPO}/include -o {d}/cont {VERIF}/harness/containers.cpp", timeout=900)
-    if rc: return d, out
-    open(d + "/ok", "w").write("ok")
-    return d, None
+    with locked("cont"):
+        if os.path.exists(d + "/ok"): return d, None
+        os.makedirs(d, exist_ok=True)
+        rc, out, _ = sh(f"g++ -std=c++17 -O1 -I{REPO}/include -o {d}/cont {VERIF}/harness/containers.cpp", timeout=900)
+        if rc: return d, out
+        open(d + "/ok", "w").write("ok")
+        return d, None
 
 def gen_cases(seed, tier):
     rnd = random.Random(1000 + seed)
@@ -148,7 +149,7 @@ def run_containers(rep, what=("B", "V", "Q", "S")):
     if err:
         rep.tie_broken("the container harness no longer compiles against /repo's header: " + err[-500:]); return 0
     cases = [c for c in gen_cases(rep.seed, rep.tier) if c[0] in what]
-    cf = f"{d}/cases_{rep.tier}_{rep.seed}_{''.join(what)}.txt"
+    cf = f"{d}/cases_{rep.pid}_{rep.tier}_{rep.seed}_{''.join(what)}.txt"
     open(cf, "w").write("\n".join(" ".join([k] + ([str(n)] if n is not None else []) + ops) for k, n, ops in cases) + "\n")
     rc, out, _ = sh(f"timeout 300 {d}/cont {cf}", timeout=330)
     lines = [l for l in out.split("\n") if l.strip()]
@@ -237,3 +238,128 @@ def run_containers(rep, what=("B", "V", "Q", "S")):
     rep.notes["containers_input_distribution"] = dist
     rep.cov["samples"] = (rep.cov.get("samples") or []) + [" ".join(map(str, (c[0], c[1], *c[2])))[:120] for c in cases[:2]]
     return len(cases)
+
+# ================================================================ namespace utils (Model/Utils.v)
+def ensure_utils():
+    key = sha(HEADER, VERIF + "/harness/utils_h.cpp")
+    d = f"{CACHE}/utl-{key}"
+    with locked("utl"):
+        if os.path.exists(d + "/ok"): return d, None
+        os.makedirs(d, exist_ok=True)
+        rc, out, _ = sh(f"g++ -std=c++17 -O1 -I{REPO}/include -o {d}/utl {VERIF}/harness/utils_h.cpp", timeout=900)
+        if rc: return d, out
+        open(d + "/ok", "w").write("ok")
+        return d, None
+
+def gen_utils_cases(seed, tier):
+    rnd = random.Random(2000 + seed)
+    n = 150 if tier == "quick" else 800
+    def s(maxlen=6, alpha=None):
+        alpha = alpha or [97, 98, 99, 1, 32, 9, 10, 127, 128, 200, 255, 65]
+        return [rnd.choice(alpha) for _ in range(rnd.randrange(0, maxlen + 1))]
+    cases = [("E", [97, 98], [97, 98]), ("E", [97, 98], [97]), ("E", [97], [97, 98]), ("E", [], []), ("E", [], [97]), ("E", [200, 255], [200, 255]), ("E", [200], [72])]
+    for _ in range(n):
+        a = s()
+        r = rnd.random()
+        b = list(a) if r < 0.3 else (a + s(2) if r < 0.5 else (a[:rnd.randrange(0, len(a) + 1)] if r < 0.7 else s()))
+        cases.append(("E", a, b))
+    ws = [[9, 10, 11, 12, 13, 32], [9, 11, 12, 13, 32]]
+    for c in range(256):
+        for t in ws: cases.append(("C", c, t))
+    for _ in range(n):
+        st = s(8); c = rnd.choice(st) if st and rnd.random() < 0.6 else rnd.choice([0, 97, 255, 128, 1])
+        cases.append(("C", c, st))
+    for _ in range(n // 3): cases.append(("L", s(12)))
+    names_pool = [[97], [97, 98], [97, 98, 99], [98], [], [105, 102], [105, 102, 102], [105], [200], [200, 201]]
+    for _ in range(n):
+        k = rnd.randrange(1, 7); tbl = [rnd.choice(names_pool) for _ in range(k)]
+        q = rnd.choice(tbl) if rnd.random() < 0.6 else rnd.choice(names_pool)
+        cases.append(("F", q, tbl))
+    return cases
+
+def hx(b): return "".join("%02x" % x for x in b) or "-"
+def cstr_of(l): return "[" + "; ".join(map(str, l)) + "]"
+
+def run_utils(rep):
+    d, err = ensure_utils()
+    if err:
+        rep.tie_broken("the utils harness no longer compiles against /repo's header: " + err[-500:]); return 0
+    cases = gen_utils_cases(rep.seed, rep.tier)
+    cf = f"{d}/cases_{rep.pid}_{rep.tier}_{rep.seed}.txt"
+    L = []
+    for c in cases:
+        if c[0] == "E": L.append(f"E {hx(c[1])} {hx(c[2])}")
+        elif c[0] == "C": L.append(f"C {c[1]} {hx(c[2])}")
+        elif c[0] == "L": L.append(f"L {hx(c[1])}")
+        else: L.append(f"F {hx(c[1])} " + " ".join(hx(x) for x in c[2]))
+    open(cf, "w").write("\n".join(L) + "\n")
+    rc, out, _ = sh(f"timeout 120 {d}/utl {cf}", timeout=150)
+    lines = [l for l in out.split("\n") if l.strip()]
+    if rc != 0 or len(lines) != len(cases) + 4:
+        rep.fail(kind="real-utils-code-crashed", detail=f"exit status {rc}, {len(lines)} lines for {len(cases)} cases", tail=out[-300:]); return 0
+    try:
+        cls = lines[0].split(" ", 1)[1].split(","); names = lines[1].split(" ", 1)[1].split(","); idx = lines[2].split(" ", 1)[1].split(","); hexs = lines[3].split(" ", 1)[1].split(",")
+        # ---- independent judgement (documented behaviour)
+        for b in range(256):
+            want = ("1" if 32 <= b <= 126 else "0") + ("1" if chr(b) in "0123456789abcdefABCDEF" else "0") + ("1" if chr(b) in "0123456789" else "0")
+            if cls[b] != want: rep.fail(kind="character-class-wrong", byte=b, real_printable_hex_dec=cls[b], expected=want)
+            wn = ("%02x00" % b) if 32 < b < 127 else ("5c78%02x%02x00" % (ord("%X" % (b // 16)), ord("%X" % (b % 16))))
+            if names[b] != wn: rep.fail(kind="byte-name-wrong", byte=b, real=names[b], expected=wn)
+            if idx[b] != f"{b}:{b}": rep.fail(kind="char-index-roundtrip-wrong", byte=b, real=idx[b])
+        for h in hexs:
+            a, b2, v = map(int, h.split(":"))
+            if v != int(chr(a) + chr(b2), 16): rep.fail(kind="hex-escape-decoded-wrong", digits=chr(a) + chr(b2), real=v)
+        ec, cc, lc, fc = [], [], [], []
+        for c, line in zip(cases, lines[4:]):
+            val = line.split(" ")[2]; rep.cov["evaluations"] += 1
+            if c[0] == "E":
+                if (val == "1") != (c[1] == c[2]): rep.fail(kind="str_equal-is-not-string-equality", a=c[1], b=c[2], real=val)
+                ec.append(f"({cstr_of(c[1] + [0, 120, 121, 0])}, {cstr_of(c[2] + [0, 113, 0])}, {'true' if val == '1' else 'false'})")
+            elif c[0] == "C":
+                want = "-" if (c[1] == 0 or c[1] not in c[2]) else str(c[2].index(c[1]))
+                if 0 in c[2]: want = val     # (generator never puts NUL inside)
+                if val != want: rep.fail(kind="find_char-wrong", char=c[1], string=c[2], real=val, expected=want)
+                cc.append(f"({c[1]}, {cstr_of(c[2] + [0, 9, 32, 10, 0])}, {'None' if val == '-' else 'Some ' + val})")
+            elif c[0] == "L":
+                if int(val) != len(c[1]): rep.fail(kind="str_len-wrong", string=c[1], real=val)
+                lc.append(f"({cstr_of(c[1] + [0, 97, 98, 99, 0])}, {val})")
+            else:
+                want = c[2].index(c[1]) if c[1] in c[2] else -1
+                if int(val) != want: rep.fail(kind="find_str-is-not-first-equal-name", name=c[1], table=c[2], real=val, expected=want)
+                fc.append("([" + "; ".join(cstr_of(x + [0, 119, 0]) for x in c[2]) + f"], {cstr_of(c[1] + [0, 122, 122, 0])}, {'None' if val == '-1' else 'Some ' + val})")
+    except (ValueError, IndexError) as ex:
+        rep.tie_broken(f"utils harness output could not be read ({ex})"); return 0
+    def nm(h): return cstr_of([int(h[i:i + 2], 16) for i in range(0, len(h), 2)])
+    tag = f"{rep.pid}_{rep.tier}_{rep.seed}"
+    path = f"{COQ}/Cases_utils_{tag}.v"
+    src = ["From Ctpg Require Import Base.Prelude Model.Containers Model.Utils.", "From Coq Require Import List.", "Import ListNotations.",
+           "Definition real_class : list (bool * bool * bool) := [" + "; ".join("(%s, %s, %s)" % tuple("true" if ch == "1" else "false" for ch in c) for c in cls) + "].",
+           "Definition real_names : list (list nat) := [" + "; ".join(nm(h) for h in names) + "].",
+           "Definition real_idx : list (nat * nat) := [" + "; ".join("(%s, %s)" % tuple(x.split(":")) for x in idx) + "].",
+           "Definition real_hex : list (nat * nat * nat) := [" + "; ".join("(%s, %s, %s)" % tuple(x.split(":")) for x in hexs) + "].",
+           "Definition e_cases : list (list nat * list nat * bool) := [" + ";\n ".join(ec) + "].",
+           "Definition c_cases : list (nat * list nat * option nat) := [" + ";\n ".join(cc) + "].",
+           "Definition l_cases : list (list nat * nat) := [" + ";\n ".join(lc) + "].",
+           "Definition f_cases : list (list (list nat) * list nat * option nat) := [" + ";\n ".join(fc) + "].",
+           "Lemma real_character_classes_are_the_models : list_eqb bbb_eqb class_table real_class = true. Proof. vm_compute. reflexivity. Qed.",
+           "Lemma real_byte_names_are_the_models : list_eqb (list_eqb Nat.eqb) name_table real_names = true. Proof. vm_compute. reflexivity. Qed.",
+           "Lemma real_char_index_roundtrip_is_the_models : list_eqb nn_eqb idx_table real_idx = true. Proof. vm_compute. reflexivity. Qed.",
+           "Lemma real_hex_decoding_is_the_models : forallb hex_case_ok real_hex = true. Proof. vm_compute. reflexivity. Qed.",
+           "Lemma real_str_equal_is_the_models : forallb streq_case_ok e_cases = true. Proof. vm_compute. reflexivity. Qed.",
+           "Lemma real_find_char_is_the_models : forallb findchar_case_ok c_cases = true. Proof. vm_compute. reflexivity. Qed.",
+           "Lemma real_str_len_is_the_models : forallb strlen_case_ok l_cases = true. Proof. vm_compute. reflexivity. Qed.",
+           "Lemma real_find_str_is_the_models : forallb findstr_case_ok f_cases = true. Proof. vm_compute. reflexivity. Qed."]
+    open(path, "w").write("\n".join(src) + "\n")
+    coq_make(["Model/Utils.vo"])
+    ok, out, dt = coqc_file(os.path.basename(path), timeout=600)
+    for ext in (".vo", ".vok", ".vos", ".glob"):
+        try: os.remove(path[:-2] + ext)
+        except OSError: pass
+    detail = ""
+    if not ok:
+        m = re.search(r"line (\d+)", out); 
+        fl = "\n".join(src).split("\n")
+        detail = (fl[int(m.group(1)) - 1][:90] if m and int(m.group(1)) <= len(fl) else "") + " :: " + out[-300:]
+    rep.oblige(f"kernel: real utils observations (classes, names, index round trip, 484 hex pairs, {len(ec)} str_equal, {len(cc)} find_char, {len(lc)} str_len, {len(fc)} find_str cases) = the byte-level mirror's (Cases_utils_{tag}.v)", ok, detail)
+    rep.notes["utils_input_distribution"] = {"str_equal": len(ec), "equal_pairs": sum(1 for c in cases if c[0] == "E" and c[1] == c[2]), "find_char": len(cc), "find_char_found": sum(1 for x in cc if "Some" in x), "str_len": len(lc), "find_str": len(fc), "find_str_not_found": sum(1 for x in fc if x.endswith("None)"))}
+    return len(cases) + 256 * 3 + 484
